@@ -174,6 +174,11 @@ def reply_mutants(rng, host):
     out.append(("reply-payload-unknown-arg", q, ["Invalid payload parameter"]))
     q = _clone(host); _rm(q, "beta")["payload_attr_text"] = "#[sv::payload]"
     out.append(("reply-payload-no-arg", q, ["Missing parameters for `sv::payload`"]))
+    # the name-value form is not a way to write a marker either
+    q = _clone(host); _rm(q, "beta")["payload_attr_text"] = "#[sv::payload = \"raw\"]"
+    out.append(("reply-payload-name-value", q, ["Missing parameters for `sv::payload`"]))
+    q = _clone(host); _rm(q, "on_alpha_ok")["data_attr_text"] = "#[sv::data = \"raw\"]"
+    out.append(("reply-data-name-value", q, ["Invalid usage of `sv::data`"]))
     q = _clone(host); _rm(q, "beta")["msg_attr_text"] = "#[sv::msg(reply, reply_on=never)]"
     out.append(("reply-unknown-reply_on", q, ["Invalid argument type"]))
     return out
